@@ -1099,6 +1099,10 @@ coap_send_message_type_lkd(coap_session_t *session, const coap_pdu_t *request,
 
   coap_lock_check_locked(session->context);
   if (request && COAP_PROTO_NOT_RELIABLE(session->proto)) {
+    if (type == COAP_MESSAGE_RST && coap_is_mcast(&session->addr_info.local)) {
+      /* RFC7252 8.1: no Reset in reply to a request received via multicast */
+      return COAP_INVALID_MID;
+    }
     response = coap_pdu_init(type, 0, request->mid, 0);
     if (response)
       result = coap_send_internal(session, response);
@@ -3909,7 +3913,9 @@ coap_dispatch(coap_context_t *context, coap_session_t *session,
       coap_send_rst_lkd(session, pdu);
       goto cleanup;
     } else if (pdu->type == COAP_MESSAGE_CON) {
-      if (COAP_PDU_IS_REQUEST(pdu)) {
+      if (coap_is_mcast(&session->addr_info.local)) {
+        /* RFC7252 8.1: no error response to a request received via multicast */
+      } else if (COAP_PDU_IS_REQUEST(pdu)) {
         response =
             coap_new_error_response(pdu, COAP_RESPONSE_CODE(402), &opt_filter);
 
@@ -4188,7 +4194,9 @@ coap_dispatch(coap_context_t *context, coap_session_t *session,
     if (!COAP_PDU_IS_SIGNALING(pdu) &&
         coap_option_check_critical(session, pdu, &opt_filter) == 0) {
       packet_is_bad = 1;
-      if (COAP_PDU_IS_REQUEST(pdu)) {
+      if (coap_is_mcast(&session->addr_info.local)) {
+        /* RFC7252 8.1: no error response to a request received via multicast */
+      } else if (COAP_PDU_IS_REQUEST(pdu)) {
         response =
             coap_new_error_response(pdu, COAP_RESPONSE_CODE(402), &opt_filter);
 
